@@ -489,6 +489,10 @@ func c10ParseGen(g *hx.Gen) {
 		{"(s1) {\n import f0\n}\nhost {\n import s1\n}\n", map[string]string{"f0": "dir1\nimport s1\n"}},
 		{"host {\n dir1 {\n  import f0\n }\n}\n", map[string]string{"f0": "a b\nimport f0\n"}},
 		{"import f0\nimport f0\n", map[string]string{"f0": "(s1) {\n}\n"}},
+		// imports that expand to nothing at the end of the input (error positions)
+		{"a,\nimport no*\n", nil}, {"host {\n import no*", nil}, {"host {\n dir1 {\n  import no*\n", nil}, {"import no*", nil},
+		{"a,\nimport f0\n", map[string]string{"f0": "# nothing\n"}}, {"host {\nimport f0\n", map[string]string{"f0": ""}},
+		{"(s1) {\n}\nhost {\n import s1", nil}, {"a,\n(s1) {\n}\nb,\nimport s1", nil},
 		{"host {\n import f0\n import f0\n import f1\n}\n", map[string]string{"f0": "dir1 a\n", "f1": "import f0\nimport f0\n"}},
 	}
 	for _, c := range cyc {
@@ -503,7 +507,14 @@ func c10ParseGen(g *hx.Gen) {
 		nf := r.Intn(4)
 		names := []string{"f0", "f1", "g.c", "h.c", "Casketfile"}
 		for k := 0; k < nf; k++ {
-			files[hx.Pick(r, names)] = c10Soup(r, 1+r.Intn(4))
+			switch r.Intn(10) {
+			case 0:
+				files[hx.Pick(r, names)] = "" // an empty file can not be imported
+			case 1:
+				files[hx.Pick(r, names)] = hx.Pick(r, []string{"# only a comment\n", "\n\n", " ", "\ufeff"})
+			default:
+				files[hx.Pick(r, names)] = c10Soup(r, 1+r.Intn(4))
+			}
 		}
 		var main string
 		switch r.Intn(6) {
